@@ -2,7 +2,9 @@
 
 use ed25519_dalek::{Signature, Signer, SigningKey, Verifier, VerifyingKey};
 use serde::{Deserialize, Serialize};
-use std::{convert::TryFrom, time::SystemTime};
+use std::convert::TryFrom;
+#[cfg(not(mainline_verif))]
+use std::time::SystemTime;
 
 use crate::Id;
 
@@ -103,6 +105,12 @@ impl SignedAnnounce {
     }
 }
 
+#[cfg(mainline_verif)]
+fn system_time() -> u64 {
+    crate::verif::unix_micros()
+}
+
+#[cfg(not(mainline_verif))]
 fn system_time() -> u64 {
     SystemTime::now()
         .duration_since(SystemTime::UNIX_EPOCH)
